@@ -49,6 +49,14 @@ def run_fit(case):
         m = BytePairEncodingVectorizer(max_vocab_size=case["vocab"], min_token_occurrence=case["mintok"],
                                        return_type=rt, max_char_code=case["mcc"])
         conv = {"sequences": seqs, "tokens": toks, "matrix": mat}[rt]
+        if case.get("prehistory"):
+            # an earlier fit and earlier transforms on the same object (see harness/impl/c16.py)
+            try:
+                past = [s[::-1] + "qq" for s in (Xn + X)] + ["qqqq", "qqqq"]
+                m.fit_transform(past)
+                m.transform(X + Xn)
+            except Exception:  # noqa
+                pass
         ft = guarded(lambda: conv(m.fit_transform(X)))
         out[rt] = {"fit_transform": ft}
         if "ok" not in ft:
